@@ -28,8 +28,15 @@ void run(string script) {
     do_op(ops[i]);
 }
 
-// one nesting level down: "," -> ";", "~" -> ",", "^" -> "~"
-string sub(string s) { return replace_string(replace_string(replace_string(s, ",", ";"), "~", ","), "^", "~"); }
+// one nesting level down: "," -> ";", "~" -> ",", "^" -> "~", "|" -> "^", "`" -> "|"
+string sub(string s) {
+  s = replace_string(s, ",", ";");
+  s = replace_string(s, "~", ",");
+  s = replace_string(s, "^", "~");
+  s = replace_string(s, "|", "^");
+  s = replace_string(s, "`", "|");
+  return s;
+}
 
 void hook(string h) {
   if (scripts && scripts[h]) run(scripts[h]);
@@ -48,6 +55,14 @@ string mkmsg(int id, int len) {
   s += repeat_string(line, len / k + 1)[0..len - 2] + "\n";
   return s;
 }
+
+// callbacks for efun-driven frames
+string cb_script;
+int run_ret_cb(mixed el, string script) { run(script); return 1; }
+int cmp_cb(mixed x, mixed y) { if (cb_script) { string t; t = cb_script; cb_script = 0; run(t); } return x > y; }
+mixed fp_target(string script) { run(script); return 7; }
+
+int cmd_x(string arg) { rec("X " + me()); hook("x"); return 1; }
 
 void spend(int n) { while (n-- > 0) ; }
 void forever() { while (1) ; }
@@ -189,6 +204,70 @@ void do_op(string op) {
   case "fcn":
     n = find_call_out("cof" + a[1]);
     rec("FCN " + me() + " " + a[1] + " ret=" + n + " t=" + time());
+    break;
+  case "fp":      // fp <script>: call through a function pointer
+    evaluate((: fp_target :), sub(implode(a[1..], " ")));
+    break;
+  case "fpb":     // fpb <script>: function pointer with a bound argument
+    evaluate((: fp_target, sub(implode(a[1..], " ")) :));
+    break;
+  case "filter":  // filter <n> <script>: efun callback frames
+    filter(allocate(to_int(a[1])), "run_ret_cb", this_object(), sub(implode(a[2..], " ")));
+    break;
+  case "map":
+    map(allocate(to_int(a[1])), (: run_ret_cb($1, $2) :), sub(implode(a[2..], " ")));
+    break;
+  case "sort":
+    cb_script = sub(implode(a[1..], " "));
+    sort_array(({ 3, 1, 2 }), "cmp_cb", this_object());
+    break;
+  case "catch":   // catch <id> <script>: LPC catch with a frame check afterwards
+    {
+      mixed r; object to, tp, po; string mark; int k;
+      to = this_object(); tp = this_player(); po = previous_object(); mark = "M" + a[1]; k = 4711;
+      rec("CATCHIN " + a[1]);
+      r = catch(run(sub(implode(a[2..], " "))));
+      if (to != this_object() || tp != this_player() || po != previous_object() || mark != "M" + a[1] || k != 4711)
+        rec("CATCHBAD " + a[1]);
+      rec("CATCH " + a[1] + " " + (stringp(r) ? replace_string(r, "\n", "") : (r ? "val:" + typeof(r) : "0")));
+    }
+    break;
+  case "load":    // load <file>: load_object (create() runs inside the load), then destruct it again
+    o = load_object(a[1]);
+    rec("LOADED " + (o ? 1 : 0));
+    if (o) destruct(o);
+    break;
+  case "living":  // make this object a living one with the action "x"
+    enable_commands();
+    add_action("cmd_x", "x");
+    break;
+  case "setcs":   // setcs <script>: the next vobj created runs this script inside create()
+    master()->set_create_script(sub(implode(a[1..], " ")));
+    break;
+  case "present": // present <ob>: id() applies in the inventory of <ob>
+    o = ob_of(a[1]);
+    if (o) present("zz-nothing", o);
+    break;
+  case "say":
+    say(implode(a[1..], " ") + "\n");
+    break;
+  case "probe":   // fixed evaluation whose records must not depend on what failed before
+    {
+      mixed r; object q;
+      master()->take_create_script();   // side effects of the failed evaluation must not leak into the probe
+      r = catch(error("probe-err\n")); rec("PROBE catch=" + (stringp(r) ? replace_string(r, "\n", "") : "?"));
+      r = catch(throw(({ 1, 2 }))); rec("PROBE throw=" + (arrayp(r) ? sizeof(r) : -1));
+      r = catch(deep(6)); rec("PROBE deep=" + (r ? 1 : 0));
+      q = load_object("/pl1"); rec("PROBE load=" + (q ? 1 : 0)); if (q) destruct(q);
+      q = find_object("/pl2"); if (q) destruct(q);
+      q = new("/vobj"); rec("PROBE clone=" + (q ? 1 : 0));
+      if (q) { q->do_move(this_object()); rec("PROBE env=" + (environment(q) == this_object())); }
+      rec("PROBE present=" + (q && present(q, this_object()) ? 1 : 0));
+      if (q) destruct(q);
+      rec("PROBE dest=" + (q ? 1 : 0));
+      rec("PROBE tp=" + (this_player() == this_object()) + " to=" + (this_object() ? 1 : 0));
+      r = catch(filter(({ 1, 2, 3 }), (: $1 > 1 :))); rec("PROBE filter=" + (r ? 1 : 0));
+    }
     break;
   case "at":      // at <n> <op...>: only on the n-th heart beat of this object
     if (this_object()->query_n_hb() == to_int(a[1])) do_op(implode(a[2..], " "));
